@@ -93,7 +93,7 @@ def nud__if_expression(self: XPathToken) -> XPathToken:
         return self.as_name()
 
     self.parser.advance('(')
-    self[:] = self.parser.expression(5),
+    self[:] = self.parser.expression(),  # the condition is an Expr: it can be a comma expression
     self.parser.advance(')')
     self.parser.advance('then')
     self[1:] = self.parser.expression(5),
